@@ -10,10 +10,13 @@
 
    Clients: FindUsedBlobs' process returns the load / decode error (modelled: [Err]).  The
    checker's process (Checker.Structure / checkTree) never returns an error but must report
-   the damaged tree; the engine's whole-program scenario "check-cli-*" runs the real
-   `restic check` on a crafted snapshot and records "error reported (exit 1, no crash)" as
-   [o_err], so a reachable unreadable tree that is not reported - or a crash, as in F-C42-1
-   (checkTree breaks out of the iterator, subtreesCollector panics) - fails clause 2.
+   the damaged tree; the engine's whole-program scenarios "check-cli-*" / "cli-broken-tree-*" /
+   "cli-undecodable-tree-*" run the real CLI (check, ls, find, dump, restore, diff, stats, backup
+   --parent, copy, rewrite, recover, prune, repair snapshots) on a crafted snapshot and record
+   "handled (an error exit where the whole tree is needed, never a crash)" as [o_err], so a
+   reachable unreadable tree that is not reported - or a crash, as in the former defect F-C42-1
+   (checkTree broke out of the iterator, subtreesCollector panicked; fixed in /repo fc99927bc) -
+   fails clause 2.
 
    check_case codes: 0 ok; 2 error status differs from the specification; 3 tree-blob set wrong;
    4 data-blob set wrong; 5 process/load multiset is not "each reachable tree exactly once";
